@@ -60,10 +60,15 @@ impl ChessMove {
     /// ```
     pub fn from_san(board: &Board, move_text: &str) -> Result<ChessMove, Error> {
         // Castles first...
-        if move_text == "O-O" || move_text == "O-O-O" {
+        // a castling move may carry a check or checkmate marker, like any other move
+        let castle_text = move_text
+            .strip_suffix('+')
+            .or_else(|| move_text.strip_suffix('#'))
+            .unwrap_or(move_text);
+        if castle_text == "O-O" || castle_text == "O-O-O" {
             let rank = board.side_to_move().to_my_backrank();
             let source_file = File::E;
-            let dest_file = if move_text == "O-O" { File::G } else { File::C };
+            let dest_file = if castle_text == "O-O" { File::G } else { File::C };
 
             let m = ChessMove::new(
                 Square::make_square(rank, source_file),
